@@ -244,10 +244,23 @@ def search_direction(repo: Repo, fi: FuncInfo) -> str | None:
     """pred | succ: which neighbours a search function of breadth_first_searches expands to find import edges.
 
     A backward search reaches a `direct_predecessor_nodes` expansion (it may also walk down the hierarchy through successors);
-    a forward search reaches successor expansions only.  No inner shape is required: (1) an expansion named in the function's own
-    body decides; (2) otherwise the function is *interpreted* with a symbolic graph and the expansions it actually asks the graph for
-    are observed (traversal classes, iterator protocols, a direction chosen by a constant argument are followed); (3) otherwise
-    everything reachable by name is scanned."""
+    a forward search reaches successor expansions only.  No inner shape is required: (0) the search model, when it can read the
+    searches, knows in which direction each public search walks *as it is called* (the walk may live in a helper class or in a helper
+    shared by both directions); (1) otherwise an expansion named in the function's own body decides; (2) otherwise the function is
+    *interpreted* with a symbolic graph and the expansions it actually asks the graph for are observed (traversal classes, iterator
+    protocols, a direction chosen by a constant argument are followed); (3) otherwise everything reachable by name is scanned."""
+    dirs = repo.__dict__.get("_search_directions")
+    if dirs is None:
+        dirs = {}
+        try:
+            from . import search as S
+
+            dirs = {m.base.fq: m.direction for m in S.models(repo) if m.base is not None}
+        except AnalysisError:
+            pass  # shape not modelled: the routes below decide; C01.S reports the model's failure
+        repo.__dict__["_search_directions"] = dirs
+    if fi.fq in dirs:
+        return dirs[fi.fq]
     cache = repo.__dict__.setdefault("_c01_search_dir", {})
     if fi.fq in cache:
         return cache[fi.fq]
